@@ -909,3 +909,116 @@ M('C01-twin-hoist-writable', 'C01', PACKET,
   "        VarInt.send(len(packet_buffer.get_writable()), socket)  # Packet Size\n        socket.send(packet_buffer.get_writable())  # Packet Payload",
   "        frame = packet_buffer.get_writable()\n        VarInt.send(len(frame), socket)  # Packet Size\n        socket.send(frame)  # Packet Payload",
   expect='silent')
+
+# ---------------------------------------------------------------- C19
+M('C19-store-before-check', 'C19', AUTH,
+  "        res = _make_request(AUTH_SERVER, \"authenticate\", payload)\n\n        _raise_from_response(res)\n\n        json_resp = res.json()\n\n        self.username = username",
+  "        res = _make_request(AUTH_SERVER, \"authenticate\", payload)\n        self.username = username\n\n        _raise_from_response(res)\n\n        json_resp = res.json()\n",
+  rule='R19.3')
+M('C19-validate-always-true', 'C19', AUTH, "        if res.status_code == 204:\n            return True",
+  "        return True", rule='R19.5')
+M('C19-endpoint-typo', 'C19', AUTH, "res = _make_request(AUTH_SERVER, \"signout\",", "res = _make_request(AUTH_SERVER, \"sign_out\",",
+  rule='R19.2')
+M('C19-payload-key-renamed', 'C19', AUTH,
+  "                            \"refresh\", {\"accessToken\": self.access_token,\n                                        \"clientToken\": self.client_token})",
+  "                            \"refresh\", {\"access_token\": self.access_token,\n                                        \"clientToken\": self.client_token})",
+  rule='R19.2')
+M('C19-join-before-guard', 'C19', AUTH,
+  "        if not self.authenticated:\n            err = \"AuthenticationToken hasn't been authenticated yet!\"\n            raise YggdrasilError(err)\n\n        res = _make_request(SESSION_SERVER, \"join\",\n                            {\"accessToken\": self.access_token,\n                             \"selectedProfile\": self.profile.to_dict(),\n                             \"serverId\": server_id})\n",
+  "        res = _make_request(SESSION_SERVER, \"join\",\n                            {\"accessToken\": self.access_token,\n                             \"selectedProfile\": self.profile.to_dict(),\n                             \"serverId\": server_id})\n        if not self.authenticated:\n            err = \"AuthenticationToken hasn't been authenticated yet!\"\n            raise YggdrasilError(err)\n",
+  rule='R19.5')
+M('C19-raise-from-response-204', 'C19', AUTH, "    if res.status_code == requests.codes['ok']:\n        return None",
+  "    if res.status_code in (requests.codes['ok'], 204, 403):\n        return None", rule='R19.4')
+M('C19-authenticated-ignores-profile', 'C19', AUTH, "        if not self.profile:\n            return False\n\n        return True",
+  "        return True", rule='R19.1')
+M('C19-profile-bool-or', 'C19', AUTH, "bool_state = self.id_ is not None and self.name is not None",
+  "bool_state = self.id_ is not None or self.name is not None", rule='R19.1')
+M('C19-refresh-swaps-tokens', 'C19', AUTH,
+  "        self.access_token = json_resp[\"accessToken\"]\n        self.client_token = json_resp[\"clientToken\"]\n        self.profile.id_ = json_resp[\"selectedProfile\"][\"id\"]\n        self.profile.name = json_resp[\"selectedProfile\"][\"name\"]\n\n        return True\n\n    def validate(self):",
+  "        self.access_token = json_resp[\"clientToken\"]\n        self.client_token = json_resp[\"accessToken\"]\n        self.profile.id_ = json_resp[\"selectedProfile\"][\"id\"]\n        self.profile.name = json_resp[\"selectedProfile\"][\"name\"]\n\n        return True\n\n    def validate(self):",
+  rule='R19.3')
+M('C19-invalidate-stores', 'C19', AUTH,
+  "        if res.status_code != 204:\n            _raise_from_response(res)\n        return True\n\n    def join(self, server_id):",
+  "        self.access_token = None\n        if res.status_code != 204:\n            _raise_from_response(res)\n        return True\n\n    def join(self, server_id):",
+  rule='R19.3')
+M('C19-status-code-not-stored', 'C19', AUTH, "    exception.status_code = res.status_code\n", "", rule='R19.4')
+M('C19-cause-from-message', 'C19', AUTH, "        exception.yggdrasil_cause = json_resp.get(\"cause\")",
+  "        exception.yggdrasil_cause = json_resp.get(\"errorMessage\")", rule='R19.4')
+M('C19-session-server-url', 'C19', AUTH, "SESSION_SERVER = \"https://sessionserver.mojang.com/session/minecraft\"",
+  "SESSION_SERVER = \"https://sessionserver.mojang.com/session\"", rule='R19.2')
+M('C19-post-form-encoded', 'C19', AUTH, "data=json.dumps(data),", "data=data,", rule='R19.2')
+M('C19-join-ignores-errors', 'C19', AUTH,
+  "                             \"serverId\": server_id})\n\n        if res.status_code != 204:\n            _raise_from_response(res)\n        return True",
+  "                             \"serverId\": server_id})\n\n        return True", rule='R19.5')
+M('C19-twin-payload-two-steps', 'C19', AUTH,
+  "        res = _make_request(AUTH_SERVER, \"validate\",\n                            {\"accessToken\": self.access_token})",
+  "        payload = {\"accessToken\": self.access_token}\n        res = _make_request(AUTH_SERVER, \"validate\", payload)", expect='silent')
+M('C19-twin-authenticated-oneliner', 'C19', AUTH,
+  "        if not self.username:\n            return False\n\n        if not self.access_token:\n            return False\n\n        if not self.client_token:\n            return False\n\n        if not self.profile:\n            return False\n\n        return True",
+  "        return bool(self.username and self.access_token and\n                    self.client_token and self.profile)", expect='silent')
+
+# ---------------------------------------------------------------- C20
+M('C20-update-raising-lookup', 'C20', PLIST,
+  "        def apply(self, player_list):\n            player = player_list.players_by_uuid.get(self.uuid)\n            if player:\n                player.ping = self.ping",
+  "        def apply(self, player_list):\n            player = player_list.players_by_uuid[self.uuid]\n            if player:\n                player.ping = self.ping",
+  rule='R20.1')
+M('C20-update-inserts', 'C20', PLIST,
+  "            player = player_list.players_by_uuid.get(self.uuid)\n            if player:\n                player.gamemode = self.gamemode",
+  "            player = player_list.players_by_uuid.get(self.uuid)\n            if player:\n                player.gamemode = self.gamemode\n            else:\n                player_list.players_by_uuid[self.uuid] = self",
+  rule='R20.1')
+M('C20-remove-unguarded', 'C20', PLIST,
+  "            if self.uuid in player_list.players_by_uuid:\n                del player_list.players_by_uuid[self.uuid]",
+  "            del player_list.players_by_uuid[self.uuid]", rule='R20.1')
+M('C20-update-wrong-field', 'C20', PLIST,
+  "            if player:\n                player.display_name = self.display_name",
+  "            if player:\n                player.name = self.display_name", rule='R20.1')
+M('C20-add-keeps-existing', 'C20', PLIST,
+  "            player_list.players_by_uuid[self.uuid] = player",
+  "            if self.uuid not in player_list.players_by_uuid:\n                player_list.players_by_uuid[self.uuid] = player", rule='R20.1')
+M('C20-x-arms-swapped', 'C20', PPL,
+  "        if self.flags & self.FLAG_REL_X:\n            target.x += self.x\n        else:\n            target.x = self.x",
+  "        if self.flags & self.FLAG_REL_X:\n            target.x = self.x\n        else:\n            target.x += self.x", rule='R20.2')
+M('C20-yaw-flag-0x10', 'C20', PPL, "    FLAG_REL_YAW = 0x08\n    FLAG_REL_PITCH = 0x10", "    FLAG_REL_YAW = 0x10\n    FLAG_REL_PITCH = 0x08",
+  rule='R20.2')
+M('C20-z-uses-y', 'C20', PPL, "            target.z += self.z", "            target.z += self.y", rule='R20.2')
+M('C20-pitch-not-wrapped', 'C20', PPL, "        target.yaw %= 360\n        target.pitch %= 360", "        target.yaw %= 360",
+  rule='R20.2')
+M('C20-wrap-before-add', 'C20', PPL,
+  "        if self.flags & self.FLAG_REL_YAW:\n            target.yaw += self.yaw\n        else:\n            target.yaw = self.yaw\n",
+  "        target.yaw %= 360\n        if self.flags & self.FLAG_REL_YAW:\n            target.yaw += self.yaw\n        else:\n            target.yaw = self.yaw\n",
+  rule='R20.2', edits=[
+      dict(file=PPL, find="        if self.flags & self.FLAG_REL_YAW:\n            target.yaw += self.yaw\n        else:\n            target.yaw = self.yaw\n",
+           repl="        target.yaw %= 360\n        if self.flags & self.FLAG_REL_YAW:\n            target.yaw += self.yaw\n        else:\n            target.yaw = self.yaw\n"),
+      dict(file=PPL, find="        target.yaw %= 360\n        target.pitch %= 360", repl="        target.pitch %= 360")])
+M('C20-map-mod-height', 'C20', MAP, "                x = self.offset[0] + i % self.width", "                x = self.offset[0] + i % self.height",
+  rule='R20.3')
+M('C20-map-stride-packet-width', 'C20', MAP, "                map.pixels[x + map.width * z] = self.pixels[i]",
+  "                map.pixels[x + self.width * z] = self.pixels[i]", rule='R20.3')
+M('C20-map-offsets-crossed', 'C20', MAP,
+  "                x = self.offset[0] + i % self.width\n                z = self.offset[1] + i // self.width",
+  "                x = self.offset[1] + i % self.width\n                z = self.offset[0] + i // self.width", rule='R20.3')
+M('C20-alias-setter-other-name', 'C20', MUTIL,
+  "        fget=(lambda self: getattr(self, name)),\n        fset=(lambda self, value: setattr(self, name, value)),\n        fdel=(lambda self: delattr(self, name)))",
+  "        fget=(lambda self: getattr(self, name)),\n        fset=(lambda self, value: setattr(self, '_' + name, value)),\n        fdel=(lambda self: delattr(self, name)))",
+  rule='R20.4')
+M('C20-partial-alias-deletes-whole', 'C20', MUTIL, "        fdel=(lambda self: delattr(getattr(self, name), part)))",
+  "        fdel=(lambda self: delattr(self, name)))", rule='R20.4')
+M('C20-vector-sub-builds-vector', 'C20', TUTIL,
+  "               type(self)(self.x - other.x, self.y - other.y, self.z - other.z)",
+  "               Vector(self.x - other.x, self.y - other.y, self.z - other.z)", rule='R20.5')
+M('C20-vector-sub-plus-z', 'C20', TUTIL,
+  "               type(self)(self.x - other.x, self.y - other.y, self.z - other.z)",
+  "               type(self)(self.x - other.x, self.y - other.y, self.z + other.z)", rule='R20.5')
+M('C20-hash-ignores-type', 'C20', TUTIL, "        return hash((type(self), values))", "        return hash(values[:1])",
+  rule='R20.5')
+M('C20-eq-ignores-type', 'C20', TUTIL, "        return type(self) is type(other) and all(", "        return all(", rule='R20.5')
+M('C20-actions-reversed', 'C20', PLIST, "        for action in self.actions:\n            action.apply(player_list)",
+  "        for action in reversed(self.actions):\n            action.apply(player_list)", rule='R20.1')
+M('C20-twin-rename-player', 'C20', PLIST,
+  "            player = player_list.players_by_uuid.get(self.uuid)\n            if player:\n                player.ping = self.ping",
+  "            entry = player_list.players_by_uuid.get(self.uuid)\n            if entry is not None:\n                entry.ping = self.ping",
+  expect='silent')
+M('C20-twin-reorder-flag-blocks', 'C20', PPL,
+  "        if self.flags & self.FLAG_REL_X:\n            target.x += self.x\n        else:\n            target.x = self.x\n\n        if self.flags & self.FLAG_REL_Y:\n            target.y += self.y\n        else:\n            target.y = self.y\n",
+  "        if self.flags & self.FLAG_REL_Y:\n            target.y += self.y\n        else:\n            target.y = self.y\n\n        if self.flags & self.FLAG_REL_X:\n            target.x += self.x\n        else:\n            target.x = self.x\n",
+  expect='silent')
